@@ -65,7 +65,8 @@ def render(st, rng):
         exp = [datetime.datetime(*tm[:6]), datetime.date(*dt_), datetime.time(tm.tm_hour, tm.tm_min, tm.tm_sec)]
         for name in st['header'][3:]:
             # (a numeric column may well hold the same text as the time stamp column of this file: a channel echoing the clock)
-            txt = rng.choice(['0', '8.50', '-1.25', '1e3', '12345.678', '0.000', '7', str(ut), str(t0 + 60)])
+            txt = rng.choice(['0', '8.50', '-1.25', '1e3', '12345.678', '0.000', '7', str(ut), str(t0 + 60),
+                              '.5', '-.25', '+.75', '5.', '1E3', '+7', '1e-3', '.125e1', '-0', '1.5E+2', '007'])       # every spelling of a number
             vals.append(txt)
             exp.append(float(txt))
         if corr['line'] == r:
